@@ -19,7 +19,19 @@ use sudachi::prelude::*;
 
 pub type Dict = Rc<JapaneseDictionary>;
 pub const POS: &str = "名詞,普通名詞,一般,*,*,*";
-pub const ATOMS: [&str; 10] = ["a", "b", "é", "あ", "い", "京", "都", "𠮷", "キ", "ロ"];
+pub const POS_NUM: &str = "名詞,数詞,*,*,*,*";
+pub const ATOMS: [&str; 15] = ["a", "b", "é", "あ", "い", "京", "都", "𠮷", "キ", "ロ", "ア", "ス", "1", "2", "3"];
+/// POS of a generated word: numerals (keys of ASCII digits) are 名詞,数詞 -- the POS JoinNumericPlugin joins -- the rest common nouns
+pub fn pos_of_key(key: &str) -> &'static str {
+    if !key.is_empty() && key.chars().all(|c| c.is_ascii_digit()) {
+        POS_NUM
+    } else {
+        POS
+    }
+}
+pub fn is_katakana(key: &str) -> bool {
+    !key.is_empty() && key.chars().all(|c| ('\u{30A1}'..='\u{30FF}').contains(&c))
+}
 pub const REWRITE_DEF: &str = "# replace list: every rule changes the byte length\nq\tあい\nzz\t京\nぁ\ta\n";
 
 #[derive(Clone, Debug)]
@@ -47,6 +59,14 @@ impl Lexica {
     pub fn get(&self, dic: usize, idx: u32) -> &Word {
         self.words.iter().find(|w| w.dic == dic && w.idx == idx).unwrap()
     }
+    /// the generated word behind a word id; None for OOV / special ids and for the ids path-rewrite plugins give merged tokens
+    pub fn word_of(&self, wid: u32) -> Option<&Word> {
+        let (d, i) = ((wid >> 28) as usize, wid & 0x0fff_ffff);
+        if d >= 15 {
+            return None;
+        }
+        self.words.iter().find(|w| w.dic == d && w.idx == i)
+    }
     pub fn raw_wid(dic: usize, idx: u32) -> u32 {
         ((dic as u32) << 28) | idx
     }
@@ -63,7 +83,7 @@ impl Lexica {
             // inline references to words of the dictionary being built are resolved by key (RawDictResolver), those to
             // the system dictionary from a user dictionary by the headword read back from it (BinDictResolver)
             let surface = if u.0 == owner { &w.key } else { &w.head };
-            format!("{},{},{}", surface, POS, Self::reading(w))
+            format!("{},{},{}", surface, pos_of_key(&w.key), Self::reading(w))
         } else if u.0 == 0 || owner == 0 {
             format!("{}", u.1)
         } else {
@@ -84,7 +104,7 @@ impl Lexica {
             let mode = if w.a.is_empty() && w.b.is_empty() { "A" } else { "C" };
             s.push_str(&format!(
                 "{},{},{},{},{},{},{},{},*,{},{},{},*,*\n",
-                w.key, lr, 0, w.cost, w.head, POS, Self::reading(w), w.key, mode, units(&w.a), units(&w.b)
+                w.key, lr, 0, w.cost, w.head, pos_of_key(&w.key), Self::reading(w), w.key, mode, units(&w.a), units(&w.b)
             ));
         }
         s
@@ -111,7 +131,9 @@ fn visible<'a>(lx: &'a Lexica, dic: usize) -> Vec<&'a Word> {
 }
 
 /// generate the lexica: system dictionary and 0..2 user dictionaries
-pub fn gen_lexica(rng: &mut Rng, want_ill_formed: bool) -> Lexica {
+/// `bias`: 0 none, 1 katakana, 2 numerals, 3 both: which kind of words compounds are preferably made of (dictionaries that
+/// are analysed under JoinKatakanaOovPlugin / JoinNumericPlugin need katakana / numeral words declaring A/B units)
+pub fn gen_lexica(rng: &mut Rng, want_ill_formed: bool, bias: u8) -> Lexica {
     let mut lx = Lexica::default();
     let nuser = match rng.below(6) {
         0 => 0,
@@ -124,6 +146,18 @@ pub fn gen_lexica(rng: &mut Rng, want_ill_formed: bool) -> Lexica {
         // atoms
         let natoms = if dic == 0 { 6 + rng.below(5) as usize } else { 1 + rng.below(4) as usize };
         let mut pool: Vec<&str> = ATOMS.to_vec();
+        if dic == 0 {
+            // the system dictionary always has a numeral, so that the POS JoinNumericPlugin looks up at set-up exists
+            pool.retain(|k| *k != "1");
+            lx.words.push(Word { dic, idx, key: "1".to_string(), head: gen_head(rng, "1"), cost: 2000 + rng.below(500) as i32, indexed: true, shadow_of: None, a: vec![], b: vec![] });
+            idx += 1;
+        }
+        if bias & 1 != 0 {
+            pool.retain(|k| is_katakana(k) || rng.chance(1, 2));
+        }
+        if bias & 2 != 0 {
+            pool.retain(|k| pos_of_key(k) == POS_NUM || rng.chance(1, 2));
+        }
         for _ in 0..natoms {
             if pool.is_empty() {
                 break;
@@ -141,7 +175,14 @@ pub fn gen_lexica(rng: &mut Rng, want_ill_formed: bool) -> Lexica {
             let mut parts: Vec<Word> = vec![];
             for _ in 0..k {
                 // user dictionaries prefer their own words and mix in system words
-                let cands: Vec<&Word> = if dic > 0 && rng.chance(1, 2) { vis.iter().filter(|w| w.dic == dic).collect() } else { vis.iter().collect() };
+                let mut cands: Vec<&Word> = if dic > 0 && rng.chance(1, 2) { vis.iter().filter(|w| w.dic == dic).collect() } else { vis.iter().collect() };
+                if bias != 0 && rng.chance(3, 4) {
+                    let want_kata = bias == 1 || (bias == 3 && rng.chance(1, 2));
+                    let pref: Vec<&Word> = cands.iter().filter(|w| if want_kata { is_katakana(&w.key) } else { pos_of_key(&w.key) == POS_NUM }).cloned().collect();
+                    if !pref.is_empty() {
+                        cands = pref;
+                    }
+                }
                 if cands.is_empty() {
                     continue;
                 }
@@ -314,6 +355,11 @@ pub fn denormalise(rng: &mut Rng, norm: &str, p_num: u64, p_den: u64) -> String 
 }
 
 pub fn gen_text(rng: &mut Rng, lx: &Lexica) -> String {
+    gen_text_opt(rng, lx, true)
+}
+
+/// `respell`: allow pre-normalisation spellings (otherwise the text is its own normalised form)
+pub fn gen_text_opt(rng: &mut Rng, lx: &Lexica, respell: bool) -> String {
     let nseg = 1 + rng.below(4);
     let mut norm = String::new();
     let comps: Vec<&Word> = lx.words.iter().filter(|w| w.indexed && (!w.a.is_empty() || !w.b.is_empty())).collect();
@@ -322,11 +368,11 @@ pub fn gen_text(rng: &mut Rng, lx: &Lexica) -> String {
         match rng.below(10) {
             0..=5 if !comps.is_empty() => norm.push_str(&rng.pick(&comps).key),
             6..=7 => norm.push_str(&rng.pick(&all).key),
-            8 => norm.push_str(*rng.pick(&["x", "w", "。", "漢", " "])),
+            8 => norm.push_str(*rng.pick(&["x", "w", "。", "漢", " ", "ヌ", "ヌヌ", "5", ".", ",", "キ", "1"])),
             _ => norm.push_str(*rng.pick(&ATOMS)),
         }
     }
-    if rng.chance(1, 3) {
+    if !respell || rng.chance(1, 3) {
         norm
     } else {
         denormalise(rng, &norm, 1, 3)
@@ -422,10 +468,21 @@ pub fn run_c(dict: &Dict, text: &str, hrng: Option<&mut Rng>) -> Result<CRun, St
     let ctoks = observe(&list);
     let mut cpath = vec![];
     let mut stored = vec![];
+    // when normalisation changed nothing, modified-text offsets are original-text offsets and every token -- also one a
+    // path-rewrite plugin merged, whose word info does not tell how many bytes it occupies -- is placed by begin()/end();
+    // otherwise the chain is rebuilt from key lengths (dictionary words) and OOV surfaces
+    let identity = modified == text && m2o.iter().enumerate().all(|(i, o)| i == *o);
     let mut boff = 0usize;
     for m in list.iter() {
         let wi = m.get_word_info();
-        let blen = if m.is_oov() { wi.surface().len() } else { wi.head_word_length() };
+        let merged = m.word_id().word() == 0x0fff_ffff || m.word_id().as_raw() == u32::MAX;
+        if merged && !identity {
+            return Err("a merged token in a text that normalisation changed: its modified-text range cannot be reconstructed".to_string());
+        }
+        let blen = if identity { m.end() - m.begin() } else if m.is_oov() { wi.surface().len() } else { wi.head_word_length() };
+        if identity && m.begin() != boff {
+            return Err(format!("C path is not contiguous at byte {}", boff));
+        }
         let e = boff + blen;
         if e > modified.len() || !modified.is_char_boundary(boff) || !modified.is_char_boundary(e) {
             return Err(format!("cannot express the C path in modified-text coordinates at byte {}", boff));
@@ -534,11 +591,10 @@ fn dview(lx: &Lexica, cpath: &[(usize, usize, u32)]) -> (String, Value) {
 /// [start + len(key_0..j-1), start + len(key_0..j)), mapped to the original text through m2o
 fn key_range_oracle(lx: &Lexica, c: &CRun, sa: &[Option<(bool, Vec<Tok>)>], sb: &[Option<(bool, Vec<Tok>)>]) -> Option<String> {
     for (i, p) in c.cpath.iter().enumerate() {
-        let (d, w) = ((p.2 >> 28) as usize, p.2 & 0x0fff_ffff);
-        if d >= 15 {
-            continue;
-        }
-        let word = lx.get(d, w);
+        let word = match lx.word_of(p.2) {
+            Some(w) => w,
+            None => continue,
+        };
         let start: usize = c.modified.chars().take(p.0).map(|ch| ch.len_utf8()).sum();
         for (name, units, sp) in [("A", &word.a, &sa[i]), ("B", &word.b, &sb[i])] {
             if units.len() < 2 {
@@ -568,7 +624,7 @@ fn key_range_oracle(lx: &Lexica, c: &CRun, sa: &[Option<(bool, Vec<Tok>)>], sb: 
     None
 }
 
-fn rust_oracle(c: &CRun, a: &Option<Vec<Tok>>, b: &Option<Vec<Tok>>, sa: &[Option<(bool, Vec<Tok>)>], sb: &[Option<(bool, Vec<Tok>)>]) -> Option<String> {
+fn rust_oracle(c: &CRun, declared: &[(Vec<u32>, Vec<u32>)], a: &Option<Vec<Tok>>, b: &Option<Vec<Tok>>, sa: &[Option<(bool, Vec<Tok>)>], sb: &[Option<(bool, Vec<Tok>)>]) -> Option<String> {
     for (name, ab, sp, sel) in [("A", a, sa, 0usize), ("B", b, sb, 1usize)] {
         let ab = match ab {
             Some(x) => x,
@@ -585,7 +641,7 @@ fn rust_oracle(c: &CRun, a: &Option<Vec<Tok>>, b: &Option<Vec<Tok>>, sa: &[Optio
             }
         }
         // C + split_into must reproduce the A/B tokenisation (no word with exactly one unit on the path)
-        let single = c.stored.iter().any(|s| (if sel == 0 { &s.0 } else { &s.1 }).len() == 1);
+        let single = declared.iter().any(|s| (if sel == 0 { &s.0 } else { &s.1 }).len() == 1);
         if !single {
             let mut re = vec![];
             for (i, t) in c.ctoks.iter().enumerate() {
@@ -605,7 +661,7 @@ fn rust_oracle(c: &CRun, a: &Option<Vec<Tok>>, b: &Option<Vec<Tok>>, sa: &[Optio
             }
         }
         for (i, t) in c.ctoks.iter().enumerate() {
-            let units = if sel == 0 { &c.stored[i].0 } else { &c.stored[i].1 };
+            let units = if sel == 0 { &declared[i].0 } else { &declared[i].1 };
             if units.is_empty() && !ab.contains(t) {
                 return Some(format!("mode {}: C token {:?} declares no unit but does not appear unchanged", name, t));
             }
@@ -626,13 +682,14 @@ pub struct CaseIn {
     pub sys_csv: String,
     pub user_csvs: Vec<String>,
     pub text: String,
+    pub path_rewrite: String, // JSON of the configured path-rewrite plugins ("" = none)
 }
 
 fn run_case(sink: &mut Sink, lx: &Lexica, dict: &Dict, ci: &CaseIn, ill_formed: bool, verbose: bool) {
     // field request of the extra A/B runs: derived from the text so that a replay uses the same one
     let restricted_bits: u32 = (hash_of(&ci.text) % 1024) as u32 & !1; // never SURFACE: most interesting for the split iterator
 
-    let desc0 = json!({"kind": "c09", "text": ci.text, "system_csv": ci.sys_csv, "user_csvs": ci.user_csvs, "rewrite_def": REWRITE_DEF, "ill_formed": ill_formed,
+    let desc0 = json!({"kind": "c09", "text": ci.text, "system_csv": ci.sys_csv, "user_csvs": ci.user_csvs, "rewrite_def": REWRITE_DEF, "ill_formed": ill_formed, "path_rewrite": ci.path_rewrite,
                        "lexica": lx.words.iter().map(|w| json!([w.dic, w.idx, w.key, w.cost, w.indexed, w.a, w.b, w.head, w.shadow_of])).collect::<Vec<_>>()});
     // provenance of the tokenizers (fresh / switched between modes): drawn from the text so that a replay repeats it;
     // dictionaries with ill-formed declarations use fresh ones (an analysis inside the history could panic)
@@ -667,6 +724,9 @@ fn run_case(sink: &mut Sink, lx: &Lexica, dict: &Dict, ci: &CaseIn, ill_formed: 
     let (dv, dvj) = dview(lx, &c.cpath);
     // the rows of every dictionary as the author wrote them, in the vocabulary of the C05 codec model: from them the
     // model computes the declared units and `rows_units_ok` itself (Model/SplitSource.v check_source)
+    let pos_id = |w: &Word| -> u16 {
+        dict.lexicon().get_word_info_subset(sudachi::dic::word_id::WordId::new(w.dic as u8, w.idx), sudachi::dic::subset::InfoSubset::POS_ID).map(|i| i.pos_id()).unwrap_or(u16::MAX)
+    };
     let srcs = clist((0..lx.ndics).map(|d| {
         clist(lx.words.iter().filter(|w| w.dic == d).map(|w| {
             let units = |us: &Vec<(usize, u32, bool)>| -> String {
@@ -674,7 +734,7 @@ fn run_case(sink: &mut Sink, lx: &Lexica, dict: &Dict, ci: &CaseIn, ill_formed: 
                     let t = lx.get(u.0, u.1);
                     if u.2 {
                         // written surface: the key for a word of the dictionary being built, the headword for a system word
-                        format!("uinl {} 0%N {}", ctext(if u.0 == d { &t.key } else { &t.head }), ctext(&Lexica::reading_of(t)))
+                        format!("uinl {} {} {}", ctext(if u.0 == d { &t.key } else { &t.head }), cn(pos_id(t)), ctext(&Lexica::reading_of(t)))
                     } else if u.0 == 0 || d == 0 {
                         format!("uref {}", cn(u.1))
                     } else {
@@ -682,7 +742,7 @@ fn run_case(sink: &mut Sink, lx: &Lexica, dict: &Dict, ci: &CaseIn, ill_formed: 
                     }
                 }))
             };
-            format!("row {} {} {} 0%N {} {}", ctext(&w.key), ctext(&w.head), ctext(&Lexica::reading_of(w)), units(&w.a), units(&w.b))
+            format!("row {} {} {} {} {} {}", ctext(&w.key), ctext(&w.head), ctext(&Lexica::reading_of(w)), cn(pos_id(w)), units(&w.a), units(&w.b))
         }))
     }));
     let term = format!(
@@ -699,15 +759,13 @@ fn run_case(sink: &mut Sink, lx: &Lexica, dict: &Dict, ci: &CaseIn, ill_formed: 
         ctoks(&b),
         srcs
     );
-    if c.cpath.iter().filter(|p| (p.2 >> 28) < 15).any(|p| {
-        let w = lx.get((p.2 >> 28) as usize, p.2 & 0x0fff_ffff);
+    if c.cpath.iter().filter_map(|p| lx.word_of(p.2)).any(|w| {
         w.a.iter().chain(w.b.iter()).any(|u| u.2 && lx.get(u.0, u.1).shadow_of.is_some())
     }) {
         sink.tag("inline_ref_matching_own_and_system_row");
     }
     // the author's condition, recomputed here only for the histogram: keys of the declared units concatenate to the key
-    for p in c.cpath.iter().filter(|p| (p.2 >> 28) < 15) {
-        let w = lx.get((p.2 >> 28) as usize, p.2 & 0x0fff_ffff);
+    for w in c.cpath.iter().filter_map(|p| lx.word_of(p.2)) {
         for us in [&w.a, &w.b] {
             if !us.is_empty() {
                 let cat: String = us.iter().map(|u| lx.get(u.0, u.1).key.as_str()).collect();
@@ -719,10 +777,16 @@ fn run_case(sink: &mut Sink, lx: &Lexica, dict: &Dict, ci: &CaseIn, ill_formed: 
     let max_units = c.stored.iter().map(|s| s.0.len().max(s.1.len())).max().unwrap_or(0);
     let nontrivial = max_units >= 2;
     sink.tag(if nontrivial { "some_token_has_2+_units" } else { "no_token_splits" });
-    let differs = c.cpath.iter().filter(|p| (p.2 >> 28) < 15).any(|p| {
-        let w = lx.get((p.2 >> 28) as usize, p.2 & 0x0fff_ffff);
+    let differs = c.cpath.iter().filter_map(|p| lx.word_of(p.2)).any(|w| {
         [&w.a, &w.b].iter().any(|us| us.len() >= 2 && us[..us.len() - 1].iter().any(|u| lx.get(u.0, u.1).head.len() != lx.get(u.0, u.1).key.len()))
     });
+    if c.cpath.iter().any(|p| p.2 & 0x0fff_ffff == 0x0fff_ffff) {
+        sink.tag("C_path_has_token_merged_by_plugin");
+        if c.cpath.iter().zip(c.ctoks.iter()).any(|(p, t)| p.2 & 0x0fff_ffff == 0x0fff_ffff && lx.words.iter().any(|w| (w.a.len() >= 2 || w.b.len() >= 2) && c.modified[t.begin..].starts_with(&w.key))) {
+            sink.tag("merged_token_starts_with_a_word_declaring_units");
+        }
+    }
+    sink.tag(if ci.path_rewrite.is_empty() { "plugins=none" } else if ci.path_rewrite.contains("Numeric") && ci.path_rewrite.contains("Katakana") { "plugins=numeric+katakana" } else if ci.path_rewrite.contains("Numeric") { "plugins=numeric" } else { "plugins=katakana" });
     sink.tag(if c.how == "fresh" { "C_tokenizer=fresh" } else if c.how.contains("analyse") { "C_tokenizer=switched_modes_with_analyses" } else { "C_tokenizer=switched_modes" });
     if differs {
         sink.tag("non-last_unit_headword_length_differs_from_key");
@@ -767,24 +831,35 @@ fn run_case(sink: &mut Sink, lx: &Lexica, dict: &Dict, ci: &CaseIn, ill_formed: 
     let mut desc = desc0;
     desc["dict_view"] = dvj;
     let id = sink.case(term, desc, nontrivial);
-    // independent of the model: the unit ids stored with a word are the declared ones, system units as declared and
-    // every other unit in the dictionary the word itself was read from
+    // independent of the model: the unit ids a token carries are the ones its word declares (system units as declared,
+    // every other unit in the dictionary the word itself was read from); a token that is not a dictionary word -- OOV, or
+    // merged by a path-rewrite plugin -- declares none
+    let declared: Vec<(Vec<u32>, Vec<u32>)> = c
+        .cpath
+        .iter()
+        .map(|p| match lx.word_of(p.2) {
+            None => (vec![], vec![]),
+            Some(word) => {
+                let d = word.dic;
+                let exp = |us: &Vec<(usize, u32, bool)>| -> Vec<u32> { us.iter().map(|u| Lexica::raw_wid(if u.0 == 0 { 0 } else { d }, u.1)).collect() };
+                (exp(&word.a), exp(&word.b))
+            }
+        })
+        .collect();
     for (i, p) in c.cpath.iter().enumerate() {
-        let (d, w) = ((p.2 >> 28) as usize, p.2 & 0x0fff_ffff);
-        if d >= 15 {
-            continue;
-        }
-        let word = lx.get(d, w);
-        let exp = |us: &Vec<(usize, u32, bool)>| -> Vec<u32> { us.iter().map(|u| Lexica::raw_wid(if u.0 == 0 { 0 } else { d }, u.1)).collect() };
-        if exp(&word.a) != c.stored[i].0 || exp(&word.b) != c.stored[i].1 {
-            sink.fail(id, &format!("word ({}, {}) {:?}: stored units {:?} differ from the declared ones A={:?} B={:?}", d, w, word.key, c.stored[i], exp(&word.a), exp(&word.b)), "");
+        if declared[i] != c.stored[i] {
+            let what = match lx.word_of(p.2) {
+                Some(w) => format!("word ({}, {}) {:?}", w.dic, w.idx, w.key),
+                None => format!("token {} {:?} (word id {:#x}: not a dictionary word)", i, &c.modified[c.modified.char_indices().nth(p.0).map_or(c.modified.len(), |x| x.0)..c.modified.char_indices().nth(p.1).map_or(c.modified.len(), |x| x.0)], p.2),
+            };
+            sink.fail(id, &format!("{}: carries the unit lists {:?} but declares A={:?} B={:?}", what, c.stored[i], declared[i].0, declared[i].1), "");
             break;
         }
     }
     if !ill_formed {
         if a.is_none() || b.is_none() || sa.iter().chain(sb.iter()).any(|x| x.is_none()) {
             sink.fail(id, &format!("splitting panicked on well-formed declarations for {:?}", ci.text), "");
-        } else if let Some(w) = rust_oracle(&c, &a, &b, &sa, &sb) {
+        } else if let Some(w) = rust_oracle(&c, &declared, &a, &b, &sa, &sb) {
             sink.fail(id, &w, "");
         } else if let Some(w) = key_range_oracle(lx, &c, &sa, &sb) {
             sink.fail(id, &w, "");
@@ -792,7 +867,12 @@ fn run_case(sink: &mut Sink, lx: &Lexica, dict: &Dict, ci: &CaseIn, ill_formed: 
             // boundaries and word ids must not depend on which word-info fields are requested (the field needed for
             // splitting is added by the tokenizer itself)
             use sudachi::dic::subset::InfoSubset;
-            let ss = InfoSubset::from_bits_truncate(restricted_bits);
+            let mut ss = InfoSubset::from_bits_truncate(restricted_bits);
+            if !ci.path_rewrite.is_empty() {
+                // the request must cover what the configured path-rewrite plugins read (the restriction C10/C11 state):
+                // JoinNumericPlugin decides on the POS and the normalised form
+                ss |= InfoSubset::POS_ID | InfoSubset::NORMALIZED_FORM | InfoSubset::SURFACE;
+            }
             for (m, full) in [(Mode::A, &a), (Mode::B, &b)] {
                 let r = run_mode_subset(dict, &ci.text, m, Some(ss), None);
                 if &r != full {
@@ -876,7 +956,7 @@ fn key_length_boundary(sink: &mut Sink, cfg: &str) {
 pub fn run(args: &Args) {
     let mut sink = Sink::new("C09", &args.out, &["Model.Split", "Model.SplitSource"], args.seed, &args.tier);
     sink.shard_size = 100;
-    sink.rule("generated system + 0..2 user dictionaries (atoms of 1/2/3/4-byte code points, headwords (column 4) often of another byte length than the key, compounds declaring A and B units by id, U-id or inline reference: system->system, user->system, user->user; homographs; user copies of system words (same key, headword, POS, reading) referenced inline, so that the own-rows-first look-up order matters; words with exactly one unit; unindexed unit targets) compiled by DictBuilder and loaded with DefaultInputTextPlugin + a rewrite.def whose rules change byte lengths; texts = 1..4 dictionary words / stray characters, randomly re-spelt in pre-normalisation form (upper case, full width, ㌔, rewrite rules); per text: C, A, B tokenisation by tokenizers that are fresh or were switched between modes (set_mode history, with analyses in between) before, A and B again under a restricted field request, and split_into(A/B) of every C token (sub-token ranges also checked against the unit key lengths); non-trivial = some C token declares >= 2 units; a separate malformed stream uses ill-formed declarations (unit list too short / first unit longer than the text)");
+    sink.rule("generated system + 0..2 user dictionaries (atoms of 1/2/3/4-byte code points, headwords (column 4) often of another byte length than the key, compounds declaring A and B units by id, U-id or inline reference: system->system, user->system, user->user; homographs; user copies of system words (same key, headword, POS, reading) referenced inline, so that the own-rows-first look-up order matters; words with exactly one unit; unindexed unit targets) compiled by DictBuilder and loaded with DefaultInputTextPlugin + a rewrite.def whose rules change byte lengths, under path-rewrite stacks {none, JoinKatakanaOovPlugin minLength 1..4, JoinNumericPlugin, both} over dictionaries whose katakana / numeral words declare units (a token merged by a plugin declares none: unchanged in A/B, split_into false); texts = 1..4 dictionary words / stray characters, randomly re-spelt in pre-normalisation form (upper case, full width, ㌔, rewrite rules); per text: C, A, B tokenisation by tokenizers that are fresh or were switched between modes (set_mode history, with analyses in between) before, A and B again under a restricted field request, and split_into(A/B) of every C token (sub-token ranges also checked against the unit key lengths); non-trivial = some C token declares >= 2 units; a separate malformed stream uses ill-formed declarations (unit list too short / first unit longer than the text)");
     let res = prepare_resources(&args.work);
     let cfg = config_json(&res, "");
     if let Some(p) = &args.replay {
@@ -886,13 +966,15 @@ pub fn run(args: &Args) {
             sys_csv: case["system_csv"].as_str().unwrap().to_string(),
             user_csvs: case["user_csvs"].as_array().unwrap().iter().map(|x| x.as_str().unwrap().to_string()).collect(),
             text: case["text"].as_str().unwrap().to_string(),
+            path_rewrite: case["path_rewrite"].as_str().unwrap_or("").to_string(),
         };
         let lx = lexica_from_json(&case["lexica"]);
         println!("system lexicon:\n{}", ci.sys_csv);
         for (i, u) in ci.user_csvs.iter().enumerate() {
             println!("user lexicon {}:\n{}", i + 1, u);
         }
-        let dict: Dict = Rc::new(build_dict(&ci.sys_csv, &ci.user_csvs, &cfg).expect("dictionary of the replayed case"));
+        println!("path rewrite plugins: [{}]", ci.path_rewrite);
+        let dict: Dict = Rc::new(build_dict(&ci.sys_csv, &ci.user_csvs, &config_json(&res, &ci.path_rewrite)).expect("dictionary of the replayed case"));
         run_case(&mut sink, &lx, &dict, &ci, case["ill_formed"].as_bool().unwrap_or(false), true);
         sink.finish();
         return;
@@ -908,7 +990,7 @@ pub fn run(args: &Args) {
         let sys_csv = lx.csv(0);
         let dict: Dict = Rc::new(build_dict(&sys_csv, &[], &cfg).expect("corpus dictionary"));
         for text in ["ＡＢ", "ab", "AB", "abab", "xＡb。", ""] {
-            let ci = CaseIn { sys_csv: sys_csv.clone(), user_csvs: vec![], text: text.to_string() };
+            let ci = CaseIn { sys_csv: sys_csv.clone(), user_csvs: vec![], text: text.to_string(), path_rewrite: String::new() };
             run_case(&mut sink, &lx, &dict, &ci, false, false);
             sink.tag("corpus_split_alpha");
         }
@@ -920,7 +1002,23 @@ pub fn run(args: &Args) {
     let mut rejected = 0u64;
     for d in 0..ndict {
         let ill = d % 9 == 8;
-        let lx = gen_lexica(&mut rng, ill);
+        // path-rewrite stack of this dictionary: none, JoinKatakanaOovPlugin (minLength 1..4), JoinNumericPlugin, or both
+        // (the order of the default configuration); the dictionaries analysed under a plugin prefer katakana / numeral
+        // words as parts of their compounds, so that words the plugins merge declare A/B units
+        let kat = |rng: &mut Rng| format!(r#"{{"class": "com.worksap.nlp.sudachi.JoinKatakanaOovPlugin", "oovPOS": ["名詞", "普通名詞", "一般", "*", "*", "*"], "minLength": {}}}"#, 1 + rng.below(4));
+        let num = |rng: &mut Rng| format!(r#"{{"class": "com.worksap.nlp.sudachi.JoinNumericPlugin", "enableNormalize": {}}}"#, rng.chance(1, 2));
+        let (path_rewrite, bias) = if ill {
+            (String::new(), 0)
+        } else {
+            match d % 4 {
+                0 => (String::new(), 0),
+                1 => (kat(&mut rng), 1),
+                2 => (num(&mut rng), 2),
+                _ => (format!("{}, {}", num(&mut rng), kat(&mut rng)), 3),
+            }
+        };
+        let cfg = config_json(&res, &path_rewrite);
+        let lx = gen_lexica(&mut rng, ill, bias);
         let ill = lx.ill_formed.is_some();
         let sys_csv = lx.csv(0);
         let user_csvs: Vec<String> = (1..lx.ndics).map(|k| lx.csv(k)).collect();
@@ -956,9 +1054,11 @@ pub fn run(args: &Args) {
                     }
                 }
                 Some((dic, idx)) if k % 2 == 0 => format!("{}{}", gen_text(&mut rng, &lx), lx.get(dic, idx).key),
-                _ => gen_text(&mut rng, &lx),
+                // under a path-rewrite plugin the text is its own normalised form: a merged token is placed by its
+                // original-text offsets
+                _ => gen_text_opt(&mut rng, &lx, path_rewrite.is_empty()),
             };
-            let ci = CaseIn { sys_csv: sys_csv.clone(), user_csvs: user_csvs.clone(), text };
+            let ci = CaseIn { sys_csv: sys_csv.clone(), user_csvs: user_csvs.clone(), text, path_rewrite: path_rewrite.clone() };
             run_case(&mut sink, &lx, &dict, &ci, ill, false);
         }
     }
